@@ -2,6 +2,7 @@ package main
 
 import (
 	"fmt"
+	"go/token"
 	"go/types"
 	"sort"
 	"strings"
@@ -353,6 +354,11 @@ func (f *Frame) enterLoop(li *loopInfo, b *ssa.BasicBlock, preds []*ssa.BasicBlo
 		vc.assume(at, vc.typeInv(t, phi.Type(), cur.alloc), "type invariant")
 		if phi.Comment == "rangeindex" {
 			vc.assume(at, "(>= "+t+" (- 1))", "range index starts at -1 and only increases")
+			// the header of a range-over-slice/array loop is: i1 = phi+1; if i1 < N;
+			// so phi < N whenever N >= 0 (inductive by construction of the loop)
+			if n := f.rangeBound(b, phi); n != "" {
+				vc.assume(at, "(=> (>= "+n+" 0) (< "+t+" "+n+"))", "range index stays below the range length")
+			}
 		}
 		hvals[phi] = t
 		f.env[phi] = &Val{T: t}
@@ -371,6 +377,33 @@ func (f *Frame) enterLoop(li *loopInfo, b *ssa.BasicBlock, preds []*ssa.BasicBlo
 		o := vc.oblige("vacuity", fmt.Sprintf("loop%d", li.ordinal), at, "true", "", "loop invariant is satisfiable with the loop reachable", vc.con.Serves)
 		o.Expect = "sat"
 	}
+}
+
+// rangeBound recognises "i1 = phi + 1; c = i1 < N; if c" in a range loop header
+// and returns N's term (N is a constant or defined before the loop).
+func (f *Frame) rangeBound(h *ssa.BasicBlock, phi *ssa.Phi) string {
+	var inc *ssa.BinOp
+	for _, in := range h.Instrs {
+		if bo, ok := in.(*ssa.BinOp); ok {
+			if inc == nil && bo.Op == token.ADD && bo.X == ssa.Value(phi) {
+				if c, ok := bo.Y.(*ssa.Const); ok && c.Int64() == 1 {
+					inc = bo
+				}
+				continue
+			}
+			if inc != nil && bo.Op == token.LSS && bo.X == ssa.Value(inc) {
+				switch n := bo.Y.(type) {
+				case *ssa.Const:
+					return f.vc.constTerm(n)
+				default:
+					if v, ok := f.env[n]; ok && v.T != "" {
+						return v.T
+					}
+				}
+			}
+		}
+	}
+	return ""
 }
 
 func (f *Frame) entryOfTop() *State { return f.vc.topFrame.entry }
